@@ -601,11 +601,9 @@ func (w *Writer) Write(f feat.Feature) (n int, err error) {
 			if err != nil {
 				return
 			}
-			_, err = w.w.Write([]byte{'\n'})
-			if err != nil {
-				return
-			}
-			n++
+			var _n int
+			_n, err = w.w.Write([]byte{'\n'})
+			n += _n
 		}()
 		n, err = fmt.Fprintf(w.w, "%s\t%s\t%s\t%d\t%d\t",
 			f.SeqName,
@@ -629,11 +627,11 @@ func (w *Writer) Write(f feat.Feature) (n int, err error) {
 			}
 			n += _n
 		} else {
-			_, err = w.w.Write([]byte{'.'})
+			_n, err = w.w.Write([]byte{'.'})
+			n += _n
 			if err != nil {
 				return n, err
 			}
-			n++
 		}
 		_n, err = fmt.Fprintf(w.w, "\t%s\t%s",
 			f.FeatStrand,
@@ -650,11 +648,11 @@ func (w *Writer) Write(f feat.Feature) (n int, err error) {
 			}
 			n += _n
 		} else if f.Comments != "" {
-			_, err = w.w.Write([]byte{'\t'})
+			_n, err = w.w.Write([]byte{'\t'})
+			n += _n
 			if err != nil {
-				return
+				return n, err
 			}
-			n++
 		}
 		if f.Comments != "" {
 			_n, err = fmt.Fprintf(w.w, "\t%s", f.Comments)
